@@ -50,6 +50,7 @@ class Ctx:
         self.rules = {}
         self.shared = shared if shared is not None else {}
         self.unclassified = {}
+        self.extra = {}
 
     # ---------------------------------------------------------------- recording
     def rule(self, rid, text):
@@ -131,6 +132,13 @@ def finish(ctx: Ctx, t0, level_explanation, assumptions, samples_max=12):
     floor_fail = [(r, w, c, m) for (r, w, c, m) in ctx.floors if c < m]
     os.makedirs(EVIDENCE_DIR, exist_ok=True)
     replay_dir = os.path.join(EVIDENCE_DIR, "replay")
+    if os.path.isdir(replay_dir):
+        for fn in os.listdir(replay_dir):
+            if fn.startswith(ctx.prop + "_"):
+                try:
+                    os.remove(os.path.join(replay_dir, fn))
+                except OSError:
+                    pass
     lines = []
     rc = 0
     for r, w, c, m in floor_fail:
@@ -184,6 +192,7 @@ def finish(ctx: Ctx, t0, level_explanation, assumptions, samples_max=12):
             "exhaustive": True,
             "checker_cmd": "/verif/check %s %s" % (ctx.prop, ctx.tier),
             "trusted_base": assumptions,
+            **ctx.extra,
         },
         "assumptions": assumptions,
         "wall_s": round(wall, 3),
